@@ -458,3 +458,7 @@ def units(tier):
     for s in range(ns):
         us.append({'name': 'peaks-exhaustive-%d' % s, 'fn': 'unit_peaks_exhaustive', 'kwargs': {'maxlen': 6 if q else 8, 'alphabet': 4, 'shard': s, 'nshards': ns}})
     return us
+
+
+# dimensions added after the fourth and fifth round of seeded changes (DESIGN.md 8.3, 8.4); part of the rule reported in the evidence
+RULE += ' Added with the fourth and fifth round of seeded changes: find_peaks on signals of 127..70 003 samples (lengths around 2^7, 2^8, 2^15, 2^16) with spikes near the end.'
